@@ -30,17 +30,32 @@ def is_objectish(doc, sch) -> bool:
     return rs.get("type") == "object" and "properties" in rs or "allOf" in rs
 
 
+WITNESS_DOC = {"openapi": "3.0.3", "info": {"title": "W", "version": "1"}, "paths": {
+    "/text": {"get": {"operationId": "getText", "responses": {"200": {"description": "t", "content": {"text/plain": {"schema": {"type": "string"}}}}}}},
+    "/date": {"get": {"operationId": "getDate", "responses": {"200": {"description": "d", "content": {"application/json": {"schema": {"type": "string", "format": "date"}}}}}}},
+    "/nd": {"get": {"operationId": "getNd", "responses": {"200": {"description": "n", "content": {"application/x-ndjson": {"schema": {"type": "object", "properties": {"a": {"type": "integer"}}}}}}}}},
+    "/node": {"get": {"operationId": "getNode", "responses": {"200": {"description": "n", "content": {"application/json": {"schema": {"$ref": "#/components/schemas/Node"}}}}}}},
+    "/u": {"get": {"operationId": "getU", "responses": {"200": {"description": "u", "content": {"application/json": {"schema": {"$ref": "#/components/schemas/Holder"}}}}}}}},
+    "components": {"schemas": {
+        "Node": {"type": "object", "required": ["v", "children"], "properties": {"v": {"type": "integer"}, "children": {"type": "array", "items": {"$ref": "#/components/schemas/Node"}}}},
+        "V1": {"type": "object", "required": ["a"], "properties": {"a": {"type": "string"}}},
+        "V2": {"type": "object", "required": ["a", "b"], "properties": {"a": {"type": "string"}, "b": {"type": "integer"}}},
+        "Holder": {"type": "object", "required": ["item"], "properties": {"item": {"oneOf": [{"$ref": "#/components/schemas/V1"}, {"$ref": "#/components/schemas/V2"}]}}}}}}
+
+
 def build_cases(ctx, stream: str, n: int) -> list[dict]:
     cases = []
     for i in range(n):
         r = rng(f"C05:{stream}:{i}")
-        if stream == "mainstream":
+        if stream == "witness":
+            o = None
+        elif stream == "mainstream":
             o = gs.Opts(mainstream=True, always_opid=True, max_ops=4, enum_params=False, formats=("byte",), text_binary=False, streaming=False,
                         default_response=False, self_ref=False)
         else:
             o = gs.Opts(mainstream=True, always_opid=True, max_ops=4, enum_params=False, formats=("date-time", "date", "byte"), text_binary=True,
                         streaming=True, unions=True, ndjson=True)
-        doc = gs.gen_spec(r, o)
+        doc = gs.gen_spec(r, o) if o is not None else WITNESS_DOC
         calls = []
         for path, m, op, pl in opsrig.ops_of(doc):
             base = opsrig.call_plan(r, doc, path, m, op, pl, supply_optional=0.0)
@@ -49,6 +64,16 @@ def build_cases(ctx, stream: str, n: int) -> list[dict]:
             for c in codes2:
                 for rep in range(2):
                     rp = opsrig.reply_for(r, doc, c, op["responses"][c])
+                    if o is None and op["operationId"] == "getU":   # F24 witness: a V2 payload, declared after V1
+                        import base64 as _b64
+                        inst = {"item": {"a": "x", "b": 7}}
+                        rp["reply"]["body_b64"] = _b64.b64encode(json.dumps(inst).encode()).decode()
+                        rp["expect"]["json"] = inst
+                    if o is None and op["operationId"] == "getNode":
+                        import base64 as _b64
+                        inst = {"v": 1, "children": [{"v": 2, "children": []}]}
+                        rp["reply"]["body_b64"] = _b64.b64encode(json.dumps(inst).encode()).decode()
+                        rp["expect"]["json"] = inst
                     sch = rp["expect"].get("schema") or {}
                     if rp["expect"]["kind"] == "json":
                         rp["expect"]["is_object"] = "$ref" in sch and is_objectish(doc, sch)
@@ -170,12 +195,9 @@ def check(run: Run, ctx) -> None:
                        "server answers with a conforming body (two instances each) in the declared media type (json, text, binary, event-stream, ndjson); the returned "
                        "value is re-serialised with the package's runtime and compared (C03 tolerance for absent optionals). Distinct by (document, operation, status, body); "
                        "non-trivial when the response has content")
-    try:
-        from . import C05_corr
-        C05_corr.run(run, ctx)
-    except ImportError:
-        pass
-    cases = build_cases(ctx, "mainstream", ctx.budget(20, 200)) + build_cases(ctx, "wide", ctx.budget(12, 120))
+    from . import _generic as g
+    g.run_corr(run, ctx, "vf.corr.gencode", "GenCode (buildRequest/handle on generated clients, both transports)", quick=0.4, thorough=3.0)
+    cases = build_cases(ctx, "witness", 1) + build_cases(ctx, "mainstream", ctx.budget(20, 200)) + build_cases(ctx, "wide", ctx.budget(12, 120))
     results = e2e.run_cases("vf.props.C05:case_fn", cases)
     for case, res in zip(cases, results):
         evaluate(run, known, case, res)
